@@ -294,18 +294,34 @@ def mp_runs(cases):
             rs = np.random.RandomState(c["seed"])
             if c["what"] == "proj":
                 import pyproj
+                from pyproj import CRS
+                from pyproj.enums import TransformDirection
                 from pyresample._spatial_mp import Proj_MP
+                from pyresample.utils.proj4 import get_geodetic_crs_with_no_datum_shift
                 shape = tuple(c["shape"])
                 lons = rs.uniform(-60, 60, size=shape)
                 lats = rs.uniform(-70, 70, size=shape)
-                x1, y1 = Proj_MP(c["proj"])(lons, lats, nprocs=c["nprocs"], chunk=c["chunk"], schedule=c["kind"])
+                kw = dict(nprocs=c["nprocs"], chunk=c["chunk"], schedule=c["kind"])
+                # single-process counterpart 1: the same PROJ engine the workers use, one call over the whole array
+                crs = CRS.from_user_input(c["proj"])
+                tr = pyproj.Transformer.from_crs(get_geodetic_crs_with_no_datum_shift(crs), crs, always_xy=True)
+                x1, y1 = Proj_MP(c["proj"])(lons, lats, **kw)
+                xs, ys = tr.transform(lons.ravel(), lats.ravel())
+                xs, ys = np.asarray(xs, dtype=float).reshape(shape), np.asarray(ys, dtype=float).reshape(shape)
+                l1, t1 = Proj_MP(c["proj"])(xs, ys, inverse=True, **kw)
+                ls, ts = tr.transform(xs.ravel(), ys.ravel(), direction=TransformDirection.INVERSE)
+                ls, ts = np.asarray(ls, dtype=float).reshape(shape), np.asarray(ts, dtype=float).reshape(shape)
+                same = bool(x1.shape == shape and y1.shape == shape and np.array_equal(x1, xs) and np.array_equal(y1, ys)
+                            and np.array_equal(l1, ls) and np.array_equal(t1, ts))
+                # single-process counterpart 2: pyproj.Proj (its inverse differs from the Transformer pipeline in the last bits)
                 x0, y0 = pyproj.Proj(c["proj"])(lons, lats)
-                ok = bool(x1.shape == shape and y1.shape == shape and np.array_equal(x1, x0) and np.array_equal(y1, y0))
-                l1, t1 = Proj_MP(c["proj"])(x0, y0, inverse=True, nprocs=c["nprocs"], chunk=c["chunk"], schedule=c["kind"])
-                l0, t0 = pyproj.Proj(c["proj"])(x0, y0, inverse=True)
-                ok_inv = bool(np.array_equal(l1, l0) and np.array_equal(t1, t0))
-                res.append({"ok": ok and ok_inv, "n": int(lons.size),
-                            "maxdiff": float(max(np.max(np.abs(x1 - x0)), np.max(np.abs(y1 - y0)))) if lons.size else 0.0})
+                l0, t0 = pyproj.Proj(c["proj"])(xs, ys, inverse=True)
+                close = bool(np.allclose(x1, x0, rtol=1e-12, atol=1e-6) and np.allclose(y1, y0, rtol=1e-12, atol=1e-6)
+                             and np.allclose(l1, l0, rtol=0, atol=1e-9) and np.allclose(t1, t0, rtol=0, atol=1e-9))
+                res.append({"ok": same and close, "same_as_single_process_transformer": same, "close_to_pyproj_Proj": close,
+                            "bit_identical_to_pyproj_Proj": bool(np.array_equal(x1, x0) and np.array_equal(y1, y0)
+                                                                 and np.array_equal(l1, l0) and np.array_equal(t1, t0)),
+                            "n": int(lons.size)})
             else:
                 import scipy.spatial as sp
                 from pyresample._spatial_mp import cKDTree_MP
